@@ -32,6 +32,9 @@ def holds (ws : List Nat) (n : Nat) (counts : List Nat) (errs panics : Nat) : Op
         let c := counts.getD i 0
         if w = 0 then c ≠ 0
         else if w = tot then c ≠ n
+        -- a cluster that should have been picked at least 50 times on average and never was: the chance of that under
+        -- the stated distribution is below e^-50 (the 12-sigma band alone is too wide to tell 0 from 100 expected)
+        else if c = 0 && n * w ≥ 50 * tot then true
         else !(within c n w tot))
       match bad with
       | [] => none
@@ -39,6 +42,7 @@ def holds (ws : List Nat) (n : Nat) (counts : List Nat) (errs panics : Nat) : Op
         let w := ws.getD i 0
         let c := counts.getD i 0
         if w = 0 then some s!"cluster {i} has weight 0 but was picked {c}/{n} times"
+        else if c = 0 then some s!"cluster {i} holds weight {w}/{tot} and was never picked in {n} calls (expected about {n * w / tot})"
         else some s!"cluster {i} weight {w}/{tot} picked {c}/{n} times: not proportional"
 
 end XdsVerif.Spec.C09
